@@ -26,7 +26,12 @@ RULE = ('random atomically balanced stoichiometries = rational null-space vector
         'applied to ndarrays, SparseVector/SparseArray, Streams and MultiStreams, same and other property package '
         '(superset, subset, permutation, equal-but-separately-compiled); ~30% of the cases derive the used reactions '
         'through copy(basis=...) / copy + basis setter and apply the originals too; '
-        'flows dyadic, mostly feasible, with limiting / clamp (-2^-45) / infeasible variants; a case is non-trivial '
+        'flows dyadic; ~80% of the cases are well-formed (feeds topped up by exact generator-side bookkeeping so '
+        'that the whole plan is feasible, with limiting and clamp (-2^-45) variants; conversions in [0,1]; packages '
+        'that know every chemical involved) so that ~89% of the applications return normally; ~20% carry exactly '
+        'one malformation (reactant not taking part, reactant=None with several reactants, mixed bases, phase '
+        'mismatch of a reaction / of the stream, X outside [0,1], stream-only or missing chemicals, unshaped or '
+        'short feeds) so that every error kind is hit every run; a case is non-trivial '
         'when at least one call changed a flow; distinct = distinct op sequences')
 ASSUMPTIONS = [
     'field arithmetic over Rat models binary64: exact comparison whenever the driver finds every intermediate '
@@ -877,20 +882,23 @@ def render_str(rng, d, names_of, phase_of=None):
     return plus.join(left) + arrow + plus.join(right)
 
 
-def gen_rxn(rng, name, k, phases, intent_out, force_basis=None, exact_bias=False):
-    """returns list of op lines defining reaction `name` on package k"""
+def gen_rxn(rng, name, k, phases, intent_out, force_basis=None, exact_bias=False, bad=None):
+    """returns list of op lines defining reaction `name` on package k.
+    `bad` (malformed stream only): 'noreactant' | 'auto-many' | 'phase-kw' | 'x-out'"""
     ids = PKGS[k]['ids']
-    chems = PKGS[k]['chems']
     balanced = rng.random() < 0.9
     d = gen_stoich(rng, ids, balanced)
+    if bad == 'auto-many':
+        for _ in range(50):
+            if sum(1 for c in d.values() if c < 0) >= 2: break
+            d = gen_stoich(rng, ids, balanced)
     part = sorted(d)
     negs = [u for u in part if d[u] < 0]
-    r = rng.random()
-    if r < 0.03:
+    if bad == 'noreactant':
         others = [u for u in ids if u not in d]
         ru = rng.choice(others) if others else negs[0]
-    elif r < 0.18:
-        ru = rng.choice(part)
+    elif rng.random() < 0.15:
+        ru = rng.choice(part)                      # also a product-side species may be the "reactant"
     else:
         ru = rng.choice(negs)
         if exact_bias:
@@ -898,12 +906,11 @@ def gen_rxn(rng, name, k, phases, intent_out, force_basis=None, exact_bias=False
             good = [u for u in negs if all(_is_dyadic(d[v] / d[u]) for v in part)]
             if good: ru = rng.choice(good)
     auto = len(negs) == 1 and ru == negs[0] and rng.random() < 0.5
-    if rng.random() < 0.01: auto = True          # several reactants and reactant=None → ValueError
+    if bad == 'auto-many': auto = True              # several reactants and reactant=None → ValueError
     X = rng.choice([F(0), F(1), F(1), F(1, 2), F(1, 4), F(3, 4)] + [F(j, 16) for j in range(17)]
                    + [F(j, 64) for j in (1, 63, 37)])
-    r2 = rng.random()
-    if r2 < 0.03: X = rng.choice([F(5, 4), F(2), F(-1, 4)])
-    elif r2 < 0.08: X = F(float(rng.random()))
+    if bad == 'x-out': X = rng.choice([F(5, 4), F(2), F(-1, 4)])
+    elif rng.random() < 0.05: X = F(float(rng.random()))
     names_of = lambda u: [U[u].ID] + (ALIASES.get(U[u].ID, []) if rng.random() < 0.2 else [])
     phase_of = None
     phases_kw = '-'
@@ -912,8 +919,12 @@ def gen_rxn(rng, name, k, phases, intent_out, force_basis=None, exact_bias=False
         used = ''.join(sorted(set(phase_of.values())))
         if used != ''.join(sorted(phases)) or rng.random() < 0.4:
             phases_kw = ''.join(rng.sample(phases, len(phases)))
-            if rng.random() < 0.02 and used != ''.join(sorted(phases)) and len(used) > 1:
-                phases_kw = '-'   # → phases mismatch later
+        if bad == 'phase-kw':
+            # the reaction only knows the phases it mentions → phases mismatch later
+            for _ in range(20):
+                if 1 < len(set(phase_of.values())) < len(phases): break
+                phase_of = {u: rng.choice(phases) for u in part}
+            if 1 < len(set(phase_of.values())) < len(phases): phases_kw = '-'
     how = rng.random()
     basis = force_basis or 'mol'
     if how < 0.6:
@@ -965,12 +976,59 @@ def gen_flows(rng, npkg, nrows, want, small=False):
     return rows
 
 
+# ---- generator-side bookkeeping (exact, on the intended stoichiometry): which feeds a plan can digest
+
+def _plan_rxn(intent, name, ru, X, rids, nrows):
+    nu = [F(c) for row in intent[name]['nu'][:nrows] for c in row]
+    n = len(rids)
+    pos = [i for i, c in enumerate(nu) if c != 0 and rids[i % n] == ru]
+    if not pos: return None
+    r = pos[0]
+    return ([c / (-nu[r]) for c in nu], r, X)
+
+
+def _plan_apply(node, rx, v):
+    kind, arg = node
+    if kind == 'single':
+        nu, r, X = rx[arg]
+        e = v[r] * X
+        return [a + e * c for a, c in zip(v, nu)]
+    if kind == 'par':
+        es = [v[rx[i][1]] * rx[i][2] for i in arg]
+        for e, i in zip(es, arg):
+            v = [a + e * c for a, c in zip(v, rx[i][0])]
+        return v
+    if kind == 'ser':
+        for i in arg: v = _plan_apply(('single', i), rx, v)
+        return v
+    for m in arg: v = _plan_apply(m, rx, v)          # 'sys'
+    return v
+
+
+def _top_up(rng, node, rx, feed, margin):
+    """raise the feed where the plan would leave a negative flow; returns (feed, result)"""
+    for _ in range(8):
+        res = _plan_apply(node, rx, feed)
+        neg = [i for i, x in enumerate(res) if x < 0]
+        if not neg: break
+        for i in neg:
+            feed[i] += -res[i] + (rng.randrange(0, 9) if margin else 0)
+    return feed, _plan_apply(node, rx, feed)
+
+
+MALFORMED = (['noreactant', 'auto-many', 'basis-mix', 'phase-kw'] +
+             ['x-out', 'stream-phase', 'stream-extra', 'pkg-missing'] * 2 + ['asis', 'short'] * 3)
+
+
 def gen_case(rng):
     intent = {}
-    ops = []
-    # ---- configuration
+    # ---- configuration: ≈80 % well-formed cases (feeds that the plan can digest, conversions in [0,1], packages
+    # that know every chemical involved); ≈20 % carry exactly one malformation so that every error kind is hit
+    mal = rng.choice(MALFORMED) if rng.random() < 0.2 else None
     multi = rng.random() < 0.35
+    if mal == 'phase-kw': multi = True
     phases = rng.choice(PHASE_SETS) if multi else ''
+    if mal == 'phase-kw': phases = 'gls'
     rk = rng.choice([0, 0, 0, 0, 1, 2, 4])
     basis = 'wt' if rng.random() < 0.3 else 'mol'
     shape = rng.choices(['single', 'par', 'ser', 'sys'], [40, 20, 20, 20])[0]
@@ -986,52 +1044,79 @@ def gen_case(rng):
     def new_rxn(force_basis):
         name = f'r{len(names)}'
         names.append(name)
+        bad = 'x-out' if (mal == 'x-out' and not defs) else None
         if via_copy and rng.random() < 0.7:
             # define on the molar basis, derive the version that is used through `copy(basis=…)` (or a copy and
             # the basis setter); the original must stay what it was defined to be and is applied as well
-            o, d, ru, X, pt = gen_rxn(rng, name, rk, phases, intent, None, exact_bias)
+            o, d, ru, X, pt = gen_rxn(rng, name, rk, phases, intent, None, exact_bias, bad)
             body.extend(o); defs.append((name, d, ru, X)); pts.append(pt)
             body.append(f'copybasis {name}c {name} {force_basis or "mol"} how={rng.choice(["copy", "copy", "setter"])}')
             body.append(f'show {name}')
             origs.append((name, pt))
-            return name + 'c'
-        o, d, ru, X, pt = gen_rxn(rng, name, rk, phases, intent, force_basis, exact_bias)
+            return name + 'c', len(defs) - 1
+        o, d, ru, X, pt = gen_rxn(rng, name, rk, phases, intent, force_basis, exact_bias, bad)
         body.extend(o); defs.append((name, d, ru, X)); pts.append(pt)
-        return name
+        return name, len(defs) - 1
     target = None
     if shape == 'single':
-        target = new_rxn(basis)
+        target, i0 = new_rxn(basis)
+        plan = ('single', i0)
     elif shape in ('par', 'ser'):
-        ms = [new_rxn(basis if rng.random() > 0.02 else ('mol' if basis == 'wt' else 'wt')) for _ in range(nrx)]
+        ms = [new_rxn(basis) for _ in range(nrx)]
         target = 'p0' if shape == 'par' else 's0'
-        body.append(f'{shape} {target} {",".join(ms)}')
+        body.append(f'{shape} {target} {",".join(m for m, _ in ms)}')
+        plan = (shape, [i for _, i in ms])
     else:
-        members = []
+        members, nodes = [], []
         budget_rx = rng.choice([2, 3, 4])
         nsets = 0
         while budget_rx > 0:
             kind = rng.choice(['single', 'par', 'ser'])
             if kind == 'single':
-                members.append(new_rxn(basis)); budget_rx -= 1
+                m, i0 = new_rxn(basis)
+                members.append(m); nodes.append(('single', i0)); budget_rx -= 1
             else:
                 m = min(budget_rx, rng.choice([1, 2, 2, 3]))
                 ms = [new_rxn(basis) for _ in range(m)]
                 nm = f'{"p" if kind == "par" else "s"}{nsets}'; nsets += 1
-                body.append(f'{kind} {nm} {",".join(ms)}')
-                members.append(nm); budget_rx -= m
+                body.append(f'{kind} {nm} {",".join(x for x, _ in ms)}')
+                members.append(nm); nodes.append((kind, [i for _, i in ms])); budget_rx -= m
         target = 'y0'
         body.append(f'sys {target} {",".join(members)}')
+        plan = ('sys', nodes)
+    # ---- malformed definitions live next to the target so that the calls below still run
+    extra = []
+    if mal in ('noreactant', 'auto-many', 'phase-kw'):
+        o, *_ = gen_rxn(rng, 'rb', rk, phases, {}, None, exact_bias, mal)
+        extra += o
+        extra.append(f'{rng.choice(["par", "ser"])} pb {names[0] if basis == "mol" and not via_copy else "rb"},rb')
+        if mal == 'phase-kw':
+            extra.append(f'call rb stream pkg={rk} ph={"".join(sorted(phases))} '
+                         f'rows={frows([[1.0] * len(PKGS[rk]["ids"])] * len(phases))}')
+    elif mal == 'basis-mix':
+        o, *_ = gen_rxn(rng, 'rb', rk, phases, {}, 'wt', exact_bias)
+        o2, *_ = gen_rxn(rng, 'rc', rk, phases, {}, 'mol', exact_bias)
+        extra += o + o2 + [f'{rng.choice(["par", "ser", "sys"])} pb rb,rc']
     # ---- calls
     rids = PKGS[rk]['ids']
+    n = len(rids)
     nrows = max(1, len(pts[0]))
+    rx = [_plan_rxn(intent, name, ru, X, rids, nrows) for (name, d, ru, X) in defs]
+    plannable = all(r is not None for r in rx) and all(pt == pts[0] for pt in pts)
+    touched = {u for (_, d, _, _) in defs for u in d}
     calls = []
     for _ in range(rng.choice([1, 1, 2, 3])):
         r = rng.random()
-        if r < 0.3:
+        if r < 0.3 and mal not in ('stream-phase', 'stream-extra', 'pkg-missing'):
             mk = 'arr'; sk = rk
         else:
             mk = 'stream'
-            sk = rk if rng.random() < 0.7 else rng.choice([k for k in PKGS if k != rk])
+            sk = rk
+            if rng.random() > 0.7 or mal in ('stream-extra', 'pkg-missing'):
+                knows = [k for k in PKGS if k != rk and touched <= set(PKGS[k]['ids'])]
+                lacks = [k for k in PKGS if k != rk and not touched <= set(PKGS[k]['ids'])]
+                if mal == 'pkg-missing' and lacks: sk = rng.choice(lacks)
+                elif knows: sk = rng.choice(knows)
         if sk not in used_pkgs: used_pkgs.append(sk)
         sids = PKGS[sk]['ids']
         # flows in the reaction package first, moved to the stream package afterwards
@@ -1042,37 +1127,31 @@ def gen_case(rng):
                 for j, c in enumerate(row):
                     if F(c) < 0 or rids[j] == ru: want.append((i, j))
         srows_phases = phases
-        if mk == 'stream' and rng.random() < 0.04:
+        if mk == 'stream' and mal == 'stream-phase':
             # phase mismatch in either direction
-            srows_phases = rng.choice([p for p in PHASE_SETS + ['l', 'g'] if p != phases] )
+            srows_phases = rng.choice([p for p in PHASE_SETS + ['l', 'g'] if p != phases])
         n_srows = max(1, len(srows_phases)) if mk == 'stream' else nrows
-        base = gen_flows(rng, len(rids), nrows, want, small=not exact_bias)
-        # feasibility shaping on the first reaction (generator-side arithmetic on the intended stoichiometry)
-        variant = rng.choices(['asis', 'rich', 'limit', 'clamp', 'short'], [15, 55, 12, 10, 8])[0]
-        if defs:
-            name, d, ru, X = defs[0]
-            nu = [[F(c) for c in row] for row in intent[name]['nu']]
-            rpos = [(i, j) for i, row in enumerate(nu) for j, c in enumerate(row) if rids[j] == ru and c != 0]
-            if rpos and rpos[0][0] < nrows:
-                ri = rpos[0]
-                cr = nu[ri[0]][ri[1]]
-                nr = F(base[ri[0]][ri[1]])
-                for i, row in enumerate(nu[:nrows]):
-                    for j, c in enumerate(row):
-                        if (i, j) == ri or c == 0: continue
-                        delta = nr * X * c / (-cr)
-                        need = -delta
-                        if need <= 0: continue
-                        if variant == 'rich':
-                            base[i][j] = float(F(base[i][j]) + F(math.ceil(need)) + rng.randrange(0, 8))
-                        elif variant in ('limit', 'clamp', 'short') and _is_dyadic(need) and need < 2**20:
-                            if variant == 'limit': base[i][j] = float(need)
-                            elif variant == 'clamp': base[i][j] = float(need - F(1, 2**rng.choice([45, 41, 50])))
-                            else: base[i][j] = float(need - F(1, 2**rng.choice([1, 3, 8, 12, 20, 30, 38])))
-                            if base[i][j] < 0: base[i][j] = 0.0
-        if variant == 'rich' and len(defs) > 1:
-            for (i, j) in want:
-                if i < nrows: base[i][j] = base[i][j] + float(rng.randrange(16, 512))
+        base = gen_flows(rng, n, nrows, want, small=not exact_bias)
+        if mk == 'stream' and mal != 'pkg-missing':
+            for row in base:
+                for j, u in enumerate(rids):
+                    if u not in sids: row[j] = 0.0          # the stream's package does not know this chemical
+        # feasibility shaping (generator-side exact arithmetic on the intended stoichiometry)
+        if mal in ('asis', 'short'): variant = mal
+        else: variant = rng.choices(['rich', 'limit', 'clamp'], [76, 13, 11])[0]
+        if plannable and variant != 'asis':
+            feed = [F(x) for row in base for x in row]
+            feed, res = _top_up(rng, plan, rx, feed, margin=(variant == 'rich'))
+            if variant in ('clamp', 'short'):
+                # one flow that the plan uses up completely is offered a little short
+                zero = [i for i, (a, b) in enumerate(zip(feed, res)) if b == 0 and a > 0]
+                if zero:
+                    i = rng.choice(zero)
+                    cut = F(1, 2**rng.choice([45, 41, 50])) if variant == 'clamp' else \
+                        F(1, 2**rng.choice([1, 3, 8, 12, 20, 30, 38]))
+                    if feed[i] > cut and float(feed[i] - cut) != float(feed[i]): feed[i] -= cut
+            if all(abs(x) < 2**40 for x in feed):
+                base = [[float(x) for x in feed[i * n:(i + 1) * n]] for i in range(nrows)]
         # move to the stream's package / phase layout
         mode = ' mode=force' if rng.random() < 0.12 else ''
         if mk == 'arr':
@@ -1083,11 +1162,10 @@ def gen_case(rng):
             for i in range(min(nrows, n_srows)):
                 for j, u in enumerate(rids):
                     if u in sids: rows[i][sids.index(u)] = base[i][j]
-                    elif rng.random() < 0.9: pass            # flow of a chemical the stream lacks: dropped
-            if sk != rk and rng.random() < 0.5:
-                # chemicals only the stream's package has: zero mostly (non-zero → UndefinedChemical)
-                for j, u in enumerate(sids):
-                    if u not in rids and rng.random() < 0.08: rows[0][j] = float(rng.randrange(1, 9))
+            if mal == 'stream-extra':
+                # a flow of a chemical that only the stream's package has → UndefinedChemical
+                only = [j for j, u in enumerate(sids) if u not in rids]
+                if only: rows[0][rng.choice(only)] = float(rng.randrange(1, 9))
             ph = ''.join(sorted(srows_phases)) if srows_phases else rng.choice('lgs')
             calls.append(f'call {target} stream pkg={sk} ph={ph}{mode} rows={frows(rows)}')
     if origs:
@@ -1098,8 +1176,10 @@ def gen_case(rng):
             same = [o for o, pt in origs if pt == pts[0]]
             if same:
                 calls = calls + [calls[0].replace(f'call {target} ', f'call {rng.choice(same)} ', 1)]
-    ops = [f'pkg {k}' for k in used_pkgs] + body + calls
-    return Case(ops, {'intent': intent})
+    ops = [f'pkg {k}' for k in used_pkgs] + body + extra + calls
+    meta = {'intent': intent}
+    if mal: meta['malformed'] = mal
+    return Case(ops, meta)
 
 
 def generate(rng, tier, index, nworkers):
